@@ -209,3 +209,85 @@ if __name__ == "__main__":
     kinds = sys.argv[3] if len(sys.argv) > 3 else "AMRCNHUKTPFY"
     for l in family_random(seed, n, list(kinds)):
         print(l)
+
+
+# ----------------------------------------------------------------------------
+# Deterministic bounded-exhaustive families. A family is described by the
+# declared objects and, per thread, an alphabet of macro-operations (strings of
+# one or more instructions, kept together so that guards are released, etc.).
+def exhaustive(prefix, decls, alphabets, maxlen, main_pre=(), main_post=(), join=True, stride=1, limit=None, **cfg):
+    """alphabets[0] is the main thread's alphabet, alphabets[t] thread t's.
+    Every thread runs every sequence of 1..maxlen macro-ops (main: 0..maxlen).
+    stride/limit subsample the product deterministically."""
+    nth = len(alphabets)
+
+    def seqs(alpha, lo):
+        out = []
+        for n in range(lo, maxlen + 1):
+            out += [list(s) for s in itertools.product(alpha, repeat=n)]
+        return out
+    per = [seqs(alphabets[0], 0)] + [seqs(a, 1) for a in alphabets[1:]]
+    lines = []
+    k = 0
+    for combo in itertools.product(*per):
+        k += 1
+        if (k - 1) % stride:
+            continue
+        bodies = []
+        main = list(main_pre) + [f"sp {t}" for t in range(1, nth)]
+        for m in combo[0]:
+            main += m.split(";")
+        if join:
+            main += [f"jn {t}" for t in range(1, nth)]
+        main += list(main_post)
+        bodies.append([x.strip() for x in main])
+        for t in range(1, nth):
+            b = []
+            for m in combo[t]:
+                b += [x.strip() for x in m.split(";")]
+            bodies.append(b)
+        lines.append(prog_line(f"{prefix}{len(lines)}", decls, bodies, **cfg))
+        if limit and len(lines) >= limit:
+            break
+    return lines
+
+
+def fam_sync_core(tier="quick"):
+    """F-sync: SC atomics, mutex, rwlock, channel, notify, condvar, park; 2-3 threads."""
+    L = []
+    big = tier != "quick"
+    # atomics (sequentially consistent accesses), one and two locations
+    a1 = ["ld 0 sc", "st 0 1 sc", "rmw 0 add 1 sc", "cas 0 0 5 sc sc"]
+    a2 = ["ld 0 sc", "st 0 2 sc", "rmw 0 add 2 sc", "cas 0 0 6 sc sc"]
+    L += exhaustive("syA", ["A0"], [a1, a2], 2, stride=1 if big else 3)
+    b1 = ["st 0 1 sc", "ld 1 sc", "ld 0 sc"]
+    b2 = ["st 1 1 sc", "ld 0 sc", "ld 1 sc"]
+    L += exhaustive("syB", ["A0", "A0"], [b1, b2], 2, stride=1 if big else 3)
+    c3 = ["ld 0 sc", "st 0 3 sc"]
+    L += exhaustive("syC", ["A0"], [["ld 0 sc"], ["st 0 1 sc", "ld 0 sc"], c3], 2 if big else 1)
+    # mutex with a visible operation inside the critical section
+    m1 = ["lk 0 ; st 1 1 sc ; ul 0", "lk 0 ; ld 1 sc ; ul 0", "ld 1 sc"]
+    m2 = ["lk 0 ; st 1 2 sc ; ul 0", "tl 0 ; st 1 3 sc ; ul 0", "ld 1 sc"]
+    L += exhaustive("syM", ["M", "A0"], [m1, m2], 2, stride=1 if big else 2)
+    # rwlock
+    r1 = ["rd 0 ; ld 1 sc ; urd 0", "wr 0 ; st 1 1 sc ; uwr 0"]
+    r2 = ["rd 0 ; ld 1 sc ; urd 0", "wr 0 ; st 1 2 sc ; uwr 0", "trd 0 ; ld 1 sc ; urd 0", "twr 0 ; st 1 3 sc ; uwr 0"]
+    L += exhaustive("syR", ["R", "A0"], [r1, r2], 2, stride=1 if big else 2)
+    # channel: main receives, others send
+    h0 = ["rv 0", "trv 0"]
+    h1 = ["sd 0 1", "sd 0 2"]
+    h2 = ["sd 0 3"]
+    L += exhaustive("syH", ["H"], [h0, h1], 2, main_post=["drx 0"])
+    L += exhaustive("syH3", ["H"], [h0, h1, h2], 2 if big else 1, main_post=["drx 0"])
+    # notify / park
+    n0 = ["nw 0", "ld 1 sc"]
+    n1 = ["nn 0", "st 1 1 sc"]
+    L += exhaustive("syN", ["N", "A0"], [n0, n1], 2)
+    p0 = ["pk", "ld 0 sc"]
+    p1 = ["up 0", "st 0 1 sc"]
+    L += exhaustive("syP", ["A0"], [p0, p1], 2)
+    # condvar with the usual predicate loop unrolled once
+    c0 = ["lk 0 ; wt 1 0 ; ul 0", "lk 0 ; ld 2 sc ; ul 0"]
+    c1 = ["lk 0 ; st 2 1 sc ; ul 0 ; n1 1", "n1 1", "na 1"]
+    L += exhaustive("syC", ["M", "C", "A0"], [c0, c1], 2)
+    return L
